@@ -1,4 +1,4 @@
-(* InViewSound.v — the specifier view of `name in "<list>"` / `name not in "<list>"` (Model/Bridge.v: in_view) admits exactly
+(* InViewSound.v — the specifier view of `name in "<list>"` / `name not in "<list>"` (Model/Bridge.v: in_view) accepts exactly
    the final versions that satisfy one of (resp. all of) the member clauses; for python_version, whose members X.Y become
    wildcard clauses, that is: exactly the interpreters whose X.Y is (resp. is not) a member of the list. *)
 From Coq Require Import List Bool ZArith NArith Arith Lia.
